@@ -146,8 +146,16 @@ impl Meta {
     pub fn write(page_pool: &PagePool, fd: &File, meta: &Meta) -> std::io::Result<()> {
         let mut page = page_pool.alloc_fat_page();
         meta.encode_to(&mut page.as_mut()[..META_SIZE]);
+        #[cfg(nomt_verif)]
+        crate::verif_hook::begin(crate::verif_hook::Kind::Write, std::os::fd::AsRawFd::as_raw_fd(fd), 0, page.len() as u64, "meta.write")?;
         fd.write_all_at(&page[..], 0)?;
+        #[cfg(nomt_verif)]
+        crate::verif_hook::end(crate::verif_hook::Kind::Write, std::os::fd::AsRawFd::as_raw_fd(fd), 0, page.len() as u64, "meta.write");
+        #[cfg(nomt_verif)]
+        crate::verif_hook::begin(crate::verif_hook::Kind::Fsync, std::os::fd::AsRawFd::as_raw_fd(fd), 0, 0, "meta.fsync")?;
         fd.sync_all()?;
+        #[cfg(nomt_verif)]
+        crate::verif_hook::end(crate::verif_hook::Kind::Fsync, std::os::fd::AsRawFd::as_raw_fd(fd), 0, 0, "meta.fsync");
         Ok(())
     }
 }
